@@ -178,18 +178,25 @@ func c18HeightShape(c *Ctx, update, lines *ssa.Function, str, height interface{}
 	r := c.R
 	// Lines: separator and whether exactly one trailing empty segment is dropped
 	lsep, ldrop := "", false
+	ldropUnknown := false
 	eachInstr(lines, func(in ssa.Instruction) {
 		if isCallTo(in, "strings", "Split") {
 			lsep, _ = constString(callCommon(in).Args[1])
 		}
 		if sl, ok := in.(*ssa.Slice); ok && sl.High != nil {
-			// ss[:len(ss)-1] under ss[len(ss)-1] == ""
-			for _, cf := range dominatingConds(in.Block()) {
-				if b, isB := cf.Cond.(*ssa.BinOp); isB && b.Op == token.EQL && cf.Val {
-					if s, isS := constString(b.Y); isS && s == "" {
-						ldrop = true
+			// ss[:len(ss)-1] under ss[len(ss)-1] == ""   (spelled == or !=, either way round)
+			found := false
+			for _, cf := range expandConds(dominatingConds(in.Block())) {
+				if b, isB := cf.Cond.(*ssa.BinOp); isB && ((b.Op == token.EQL && cf.Val) || (b.Op == token.NEQ && !cf.Val)) {
+					for _, side := range []ssa.Value{b.X, b.Y} {
+						if s, isS := constString(side); isS && s == "" {
+							ldrop, found = true, true
+						}
 					}
 				}
+			}
+			if !found {
+				ldropUnknown = true
 			}
 		}
 	})
@@ -229,6 +236,8 @@ func c18HeightShape(c *Ctx, update, lines *ssa.Function, str, height interface{}
 		r.Check("R18.2", FuncName(update), "height is derived from length.Lines itself", update.Pos(), true, "")
 	case hasCount && lsep == "":
 		r.Note("shape-unrecognised R18.2: length.Lines does not split with strings.Split; agreement of the height formula with it is not evaluated")
+	case hasCount && ldropUnknown:
+		r.Note("shape-unrecognised R18.2: length.Lines shortens its result under a condition that was not recognised; agreement of the height formula with it is not evaluated")
 	case hasCount:
 		ok := lsep != "" && usep == lsep && hasSuffixDec == ldrop
 		r.Check("R18.2", FuncName(update), "height formula and Lines agree on the separator and on dropping one trailing empty line", update.Pos(), ok,
@@ -587,131 +596,44 @@ func sameMeasure(call *ssa.Call, m *ssa.Function) bool {
 // repeated tests of one condition value decided consistently.
 func c18MetricsAssigned(c *Ctx, update *ssa.Function, width, height *types.Var) {
 	r := c.R
-	for _, b := range update.Blocks {
-		for _, s := range b.Succs {
-			if s.Dominates(b) {
-				r.Note("shape-unrecognised R18.2: Update contains a loop; assignment of the metrics on every path is not evaluated")
-				return
-			}
-		}
+	unit := updateUnitOf(c, update)
+	if unitHasLoop(unit) {
+		r.Note("shape-unrecognised R18.2: Update contains a loop; assignment of the metrics on every path is not evaluated")
+		return
 	}
-	recv := update.Params[0]
 	type out struct {
-		ret  *ssa.Return
-		w, h bool
+		ret *ssa.Return
+		st  string
 	}
 	var outs []out
-	npaths := 0
-	decided := map[ssa.Value]bool{}
-	env := map[*ssa.Phi]bool{}
-	var eval func(v ssa.Value) (bool, bool)
-	eval = func(v ssa.Value) (bool, bool) {
-		if k, ok := constBool(v); ok {
-			return k, true
+	w := &pathWalker{unit: unit}
+	w.onStore = func(fn *ssa.Function, x *ssa.Store, st string) string {
+		f, base := storeField(x.Addr)
+		if len(fn.Params) == 0 || base != ssa.Value(fn.Params[0]) {
+			return st
 		}
-		if d, ok := decided[v]; ok {
-			return d, true
+		b := []byte(st)
+		if f == width {
+			b[0] = 'y'
 		}
-		if phi, ok := v.(*ssa.Phi); ok {
-			if d, has := env[phi]; has {
-				return d, true
-			}
+		if f == height {
+			b[1] = 'y'
 		}
-		if u, ok := v.(*ssa.UnOp); ok && u.Op == token.NOT {
-			if d, has := eval(u.X); has {
-				return !d, true
-			}
-		}
-		return false, false
+		return string(b)
 	}
-	var walk func(b, prev *ssa.BasicBlock, w, h bool)
-	walk = func(b, prev *ssa.BasicBlock, w, h bool) {
-		if npaths > 50000 {
-			return
-		}
-		var saved []struct {
-			phi *ssa.Phi
-			val bool
-			had bool
-		}
-		for _, in := range b.Instrs {
-			phi, ok := in.(*ssa.Phi)
-			if !ok {
-				break
-			}
-			old, had := env[phi]
-			saved = append(saved, struct {
-				phi *ssa.Phi
-				val bool
-				had bool
-			}{phi, old, had})
-			delete(env, phi)
-			for k, p := range b.Preds {
-				if p == prev {
-					if d, known := eval(phi.Edges[k]); known {
-						env[phi] = d
-					}
-				}
-			}
-		}
-		defer func() {
-			for _, sv := range saved {
-				if sv.had {
-					env[sv.phi] = sv.val
-				} else {
-					delete(env, sv.phi)
-				}
-			}
-		}()
-		for _, in := range b.Instrs {
-			switch x := in.(type) {
-			case *ssa.Store:
-				f, base := storeField(x.Addr)
-				if base == ssa.Value(recv) {
-					if f == width {
-						w = true
-					}
-					if f == height {
-						h = true
-					}
-				}
-			case *ssa.Return:
-				npaths++
-				outs = append(outs, out{x, w, h})
-				return
-			case *ssa.If:
-				if d, known := eval(x.Cond); known {
-					if d {
-						walk(b.Succs[0], b, w, h)
-					} else {
-						walk(b.Succs[1], b, w, h)
-					}
-					return
-				}
-				decided[x.Cond] = true
-				walk(b.Succs[0], b, w, h)
-				decided[x.Cond] = false
-				walk(b.Succs[1], b, w, h)
-				delete(decided, x.Cond)
-				return
-			}
-		}
-		for _, s := range b.Succs {
-			walk(s, b, w, h)
-		}
-	}
-	walk(update.Blocks[0], nil, false, false)
+	w.onReturn = func(ret *ssa.Return, st string) { outs = append(outs, out{ret, st}) }
+	w.run(update, "nn")
 	bad := map[*ssa.Return]string{}
 	for _, o := range outs {
-		if !o.w || !o.h {
-			bad[o.ret] = fmt.Sprintf("a path returns without assigning width: %v, height: %v", !o.w, !o.h)
+		if o.st != "yy" {
+			bad[o.ret] = fmt.Sprintf("a path returns without assigning width: %v, height: %v", o.st[0] != 'y', o.st[1] != 'y')
 		}
 	}
 	for i, ret := range returnsOf(update) {
 		why, isBad := bad[ret]
 		r.Check("R18.2", FuncName(update), fmt.Sprintf("return #%d: width and height are both assigned on every path", i+1), ret.Pos(), !isBad, why+": the metrics of the previous text survive a re-Update")
 	}
-	r.Floor("R18.2", "paths through Update examined for metric assignment", npaths, 5)
+	r.Floor("R18.2", "paths through Update examined for metric assignment", w.npaths, 5)
 }
 
 // uniqueActual: the value passed for parameter par at the only static call of its function in the module.
